@@ -155,3 +155,19 @@ type outPath struct {
 	Out    string `json:"out"`
 	Rounds int    `json:"rounds"`
 }
+
+// recoverAsDivergence turns a panic raised on the replaying goroutine (inside a call into the
+// primitive) into a divergence instead of a dead engine; harness bugs ("replay: ...") stay panics.
+func recoverAsDivergence(prim string, steps int, dv **vh.Divergence) {
+	if p := recover(); p != nil {
+		msg := fmt.Sprint(p)
+		if strings.HasPrefix(msg, "replay:") || strings.HasPrefix(msg, "unknown step") {
+			panic(p)
+		}
+		buf := make([]byte, 8192)
+		n := runtime.Stack(buf, false)
+		if *dv == nil {
+			*dv = &vh.Divergence{Key: prim + ":panic", What: "a call into the primitive panicked: " + msg, Step: steps - 1, Observed: string(buf[:n])}
+		}
+	}
+}
